@@ -1,6 +1,6 @@
 /* C13 - parse failures name the right error, file and line and return nothing partial.
  * Space: conventional files (convgen, <= --p0 lines, undecorated; --p1=1: tiny token sets) x one malformed line
- * { "[abc", "[abc] x", "[]", "key text" (non-blank delimiter sets only) } at every position where it cannot be a
+ * { "[abc", "[abc] x", "[]" (each flush left or indented by blanks / a tab), "key text" (non-blank delimiter sets only) } at every position where it cannot be a
  * continuation line x optionally a second malformed line of another kind behind it ("first such line") x embedding
  * { single file, main file of a layered read, 1st/2nd/3rd drop-in of a layered read } x all 21 configurations.
  * Plus: missing file -> ECONF_NOFILE; the 25 codes map to the frozen message table. */
@@ -17,7 +17,8 @@ static const char *MESSAGES[25] = {
   "Given argument is NULL", "Given option not found", "Value cannot be converted",
 };
 static int Nmax = 2;
-static int kind, pos, second, embed, nofinalnl;
+static int kind, pos, second, embed, nofinalnl, lead;
+static const char *LEAD[3] = { "", "  ", "\t" };   /* a header may be indented (DESIGN 5.1); a malformed one stays malformed */
 static char d0[300], d1[300];
 static char p_single[400], p_main0[400], p_main1[400], p_drop[3][400];
 #define SENT_KF ((econf_file *)(uintptr_t)0x10)
@@ -32,7 +33,8 @@ static void gen(void)
   pos = mc_choose(n + 1);
   second = mc_choose(nk);          /* == kind: no second malformed line */
   embed = mc_choose(8);            /* 0 single, 1 main file, 2..4 k-th drop-in, 5 main file / 6 2nd drop-in through econf_readConfig with JOIN_SAME_ENTRIES=1, 7 main file with PYTHON_STYLE=1 (header kinds only) */
-  nofinalnl = (second == kind && pos == n) ? mc_choose(2) : 0;   /* malformed line is the last line: with and without newline */
+  nofinalnl = (second == kind && pos == n) ? mc_choose(2) : 0;
+  lead = (kind < 3 && (embed == 0 || embed == 3)) ? mc_choose(3) : 0;   /* indentation: as a single file and as 2nd drop-in */   /* malformed line is the last line: with and without newline */
 }
 
 static void put(const char *path, const char *content) { mc_write_file(path, content, strlen(content)); }
@@ -43,7 +45,7 @@ static void exec(void)
   /* "key text" directly after an entry or continuation line would itself be a continuation line: not malformed there */
   if (kind == 3 && pos > 0 && (cg_l[pos - 1].kind == LK_ENTRY || cg_l[pos - 1].kind == LK_CONT)) { mc_st->skipped++; return; }
   for (int i = 0; i <= cg_n; i++) {
-    if (i == pos) { sb_puts(&f, BADLINE[kind]); sb_putc(&f, '\n'); }
+    if (i == pos) { sb_puts(&f, LEAD[lead]); sb_puts(&f, BADLINE[kind]); sb_putc(&f, '\n'); }
     if (i < cg_n) { sb_puts(&f, cg_l[i].text); sb_putc(&f, '\n'); }
   }
   if (second != kind) { sb_puts(&f, "\n"); sb_puts(&f, BADLINE[second]); sb_putc(&f, '\n'); }
